@@ -1,18 +1,32 @@
 #!/bin/bash
-# tools/mutant.sh <patch.diff> <Cnn> [quick|thorough]...
+# tools/mutant.sh <patch.diff> <Cnn> [quick|thorough]
 # Applies the patch to a scratch worktree of /repo (never to /repo itself), runs the check in
 # mutant mode, then resets the worktree. Prints DETECTED / MISSED.
+# Up to 4 runs proceed in parallel, each in its own slot (worktree + target directory).
 set -u
 patch=$(readlink -f "$1"); shift
 id="$1"; shift
 tier="${1:-quick}"
-WT=/tmp/jjmut
 mkdir -p /verif/target-mut
-exec 9>/verif/target-mut/.lock
-flock -w 7200 9 || { echo "could not get the mutant lock"; exit 2; }
-out=/verif/target-mut/last.$id.out
+slot=""
+for attempt in $(seq 1 100000); do
+  for s in 0 1 2 3; do
+    exec 9>/verif/target-mut/.lock.$s
+    if flock -n 9; then slot=$s; break 2; fi
+  done
+  sleep 5
+done
+[ -n "$slot" ] || { echo "could not get a mutant slot"; exit 2; }
+WT=/tmp/jjmut.$slot
+export JJMC_SLOT=$slot
+out=/verif/target-mut/last.$id.$slot.out
 if [ ! -d "$WT" ]; then
   git -C /repo worktree add --detach "$WT" HEAD >/dev/null 2>&1 || exit 2
+fi
+# seed a new slot's target directory from the main one (saves a full rebuild)
+if [ ! -d /verif/target-mut/target.$slot ] && [ -d /verif/target/verif ]; then
+  mkdir -p /verif/target-mut/target.$slot
+  cp -a /verif/target/verif /verif/target-mut/target.$slot/ 2>/dev/null
 fi
 git -C "$WT" checkout -q --detach "$(git -C /repo rev-parse HEAD)" && git -C "$WT" reset -q --hard && git -C "$WT" clean -qfd
 if ! git -C "$WT" apply "$patch"; then echo "PATCH-DOES-NOT-APPLY $patch"; exit 2; fi
